@@ -18,6 +18,7 @@ func init() {
 		Stages: []Stage{
 			{Name: "realprobe", Pkg: "./pkg/station/lib", Run: "^TestVerifC07RealProbe$", Drivers: []string{"lib"}, Files: []string{"_c07_realprobe"}, Netns: true, TimeoutQ: 5 * time.Minute, TimeoutT: 10 * time.Minute},
 			{Name: "table", Pkg: "./pkg/station/lib", Run: "^TestVerifC07Table$", Drivers: []string{"lib"}, TimeoutQ: 10 * time.Minute, TimeoutT: 40 * time.Minute},
+			{Name: "reload", Pkg: "./pkg/station/lib", Run: "^TestVerifC07Reload$", Drivers: []string{"lib"}, TimeoutQ: 10 * time.Minute, TimeoutT: 40 * time.Minute},
 			{Name: "pipeline", Pkg: "./pkg/station/lib", Run: "^TestVerifC07Pipeline$", Drivers: []string{"lib"}, TimeoutQ: 10 * time.Minute, TimeoutT: 40 * time.Minute},
 		},
 	})
